@@ -537,8 +537,11 @@ class UTPM(Ring, RawAlgorithmsMixIn):
             self.data[...] /= rhs
         else:
             retval = self.clone()
+            # broadcast the divisor over the coefficient shape (not over the
+            # direction axis), as += and -= do
+            self_data, rhs_data = UTPM._broadcast_arrays(self.data, rhs.data)
             for d in range(D):
-                retval.data[d,:,...] = 1./ rhs.data[0,:,...] * ( self.data[d,:,...] - numpy.sum(retval.data[:d,:,...] * rhs.data[d:0:-1,:,...], axis=0))
+                retval.data[d,:,...] = 1./ rhs_data[0,:,...] * ( self.data[d,:,...] - numpy.sum(retval.data[:d,:,...] * rhs_data[d:0:-1,:,...], axis=0))
             self.data[...] = retval.data[...]
         return self
 
